@@ -378,8 +378,10 @@ package nsqd
 //    memory queues is written (one write per receive, counted up to the acquisition of inFlightMutex); the drain loop
 //    ends only at the select's `default`. (Channel CONTENTS are not modelled: that the
 //    queues are empty at `default` is Go's select semantics, not provable here.)
+// (round 8) C19 too: "every message the channel no longer owes is in a file" relies on the channel still owing, after a restart of nsqd, what nsq_to_file
+// held unacknowledged (seeded change C19-r8b: an early return that skipped the in-flight messages)
 //@ func (c *Channel) flush() error
-//@   props C05 C01
+//@   props C05 C01 C19
 //@   requires flowChan(c)
 //@   ensures[errors-not-returned] result == nil
 //@   ensures[own-backend] backendWrites > old(backendWrites) ==> lastWriteQueue == c.backend
